@@ -7,6 +7,7 @@ mod findings;
 mod hist;
 mod model;
 mod observe;
+mod pairs;
 mod props;
 mod refcodec;
 mod term;
@@ -81,6 +82,8 @@ fn meta(prop: &str) -> Meta {
     "C09" => Meta { level: "model_checking", rule: "one case per (generated text, outer map, original text, inner map, options); non-trivial = at least one position is attributed through the inner map", assumptions: tree_assume, workers: 16 },
     "C05" => Meta { level: "model_checking", rule: "one state per call history (node of the prefix tree, depth <= bound); an evaluation is a history ending in an observer; non-trivial = >= 2 mutators and >= 3 calls", assumptions: &["bounded depth and alphabets (coverage.bounds)", "reference = text model of the statement + a never-observed twin built from the same mutator calls", "sorted-flag abstraction validated against ReplaceSource::verif_sorted_state after every observer"], workers: 16 },
     "C10" => Meta { level: "model_checking", rule: "one state per call history over (original, clone) handles; evaluation = history ending in a call; non-trivial = >= 2 cache-relevant calls (map/stream/hash)", assumptions: &["bounded depth, alphabet and pool of wrapped trees (coverage.bounds)", "reference = fresh never-cached build of the wrapped tree; wrapped trees contain no CachedSource beneath a ReplaceSource", "cache contents read through the guarded hook CachedSource::verif_cache_snapshot"], workers: 16 },
+    "C14" => Meta { level: "model_checking", rule: "states = pool trees + their single-edit neighbours; evaluation = (pair, left observer prefix, right observer prefix); non-trivial = at least two observer calls before comparing", assumptions: &["bounded pool, prefixes of <= 2 observer calls (twins) / <= 1 (neighbours)", "observer answers compared as text, bytes, size and per-position attribution", "trees with a CachedSource beneath a ReplaceSource are excluded (history-dependent chunking, DESIGN section 6)"], workers: 16 },
+    "C20" => Meta { level: "model_checking", rule: "states = pool trees + edited trees; evaluation = pair (base, single edit) or (base, independent tree) or (tree, observer prefix); non-trivial = the pair differs in source(), buffer() or map()", assumptions: &["bounded pool; every single edit of the listed kinds at every node", "64-bit collisions are counted as violations (none expected at this scale)", "SourceMapSource name and debugId edits are excluded (statement / reading 6.3)"], workers: 16 },
     "C11" => Meta { level: "model_checking", rule: "one case per distinct term; non-trivial = some map() has >= 2 segments", assumptions: tree_assume, workers: 16 },
     _ => panic!("unknown property {prop}"),
   }
@@ -94,6 +97,8 @@ fn run_worker(prop: &str, tier: &str, k: usize, n: usize, ctx: &mut Ctx) {
     "C08" => c08::worker(tier, k, n, ctx),
     "C09" => c09::worker(tier, k, n, ctx),
     "C05" => hist::c05_worker(tier, k, n, ctx),
+    "C14" => pairs::c14_worker(tier, k, n, ctx),
+    "C20" => pairs::c20_worker(tier, k, n, ctx),
     "C10" => hist::c10_worker(tier, k, n, ctx),
     _ => panic!("unknown property {prop}"),
   }
@@ -107,6 +112,8 @@ fn bounds(prop: &str, tier: &str) -> Value {
     "C08" => c08::bounds(tier),
     "C09" => c09::bounds(tier),
     "C05" => hist::c05_bounds(tier),
+    "C14" => pairs::c14_bounds(tier),
+    "C20" => pairs::c20_bounds(tier),
     "C10" => hist::c10_bounds(tier),
     _ => json!({}),
   }
@@ -122,7 +129,22 @@ fn main() {
       let tier = args.get(3).map(|s| s.as_str()).unwrap_or("quick");
       let started = Instant::now();
       let m = meta(prop);
-      let (total, errors) = engine::run_workers(prop, tier, m.workers, &[]);
+      let (mut total, errors) = engine::run_workers(prop, tier, m.workers, &[]);
+      if prop == "C20" {
+        let digests: Vec<&String> = total.notes.iter().filter(|n| n.starts_with("pool_hash_digest=")).collect();
+        if digests.len() != 1 {
+          let d = format!("{digests:?}");
+          total.violations.push(engine::Violation {
+            clause: "hash_differs_between_processes".into(),
+            sig: String::new(),
+            finding_key: None,
+            case: json!({"digests": d}),
+            detail: format!("the worker processes computed different hash vectors for the same pool: {d}"),
+            size: 0,
+            count: 1,
+          });
+        }
+      }
       let code = engine::finish(prop, tier, m.level, m.rule, m.assumptions, bounds(prop, tier), total, errors, started);
       std::process::exit(code);
     }
@@ -195,6 +217,23 @@ fn replay(prop: &str, case: &Value, ctx: &mut Ctx) {
       let ops: Vec<hist::CsOp> = serde_json::from_value(case["ops"].clone()).expect("ops");
       let reference = hist::cs_reference(&wrapped);
       hist::c10_history(ctx, &wrapped, &reference, &ops, true);
+    }
+    "C14" => {
+      let t: term::Term = serde_json::from_value(case["term"].clone()).expect("term");
+      let pa: Vec<pairs::Pre> = serde_json::from_value(case["left_prefix"].clone()).unwrap_or_default();
+      let pb: Vec<pairs::Pre> = serde_json::from_value(case["right_prefix"].clone()).unwrap_or_default();
+      if case["kind"] == "neighbours" {
+        let e: term::Term = serde_json::from_value(case["edited"].clone()).expect("edited");
+        pairs::c14_neighbours(ctx, &t, &e, case["edit"].as_str().unwrap_or(""), &[pa, pb]);
+      } else {
+        pairs::c14_tree(ctx, &t, &[pa, pb]);
+      }
+    }
+    "C20" => {
+      let t: term::Term = serde_json::from_value(case["term"].clone()).expect("term");
+      if let Ok(e) = serde_json::from_value::<term::Term>(case["edited"].clone()) {
+        pairs::c20_pair(ctx, &t, &e, case["edit"].as_str().unwrap_or(""));
+      }
     }
     "C13" => {
       let base: term::Term = serde_json::from_value(case["base"].clone()).expect("base");
